@@ -19,5 +19,48 @@ META = {
         assumptions=["shape: positions non-negative, orientations in {+,-}", "C02 reference-graph invariant for 'after later mutations'"]),
 }
 
+B_NOTE = (" The bounded part is a stand-in (never counted as proved): the same contract checked at run time on the real functions over the stated small scope, "
+          "against oracles written independently of gfapy (bounded/oracle.py, specs/grammar.py).")
+
+META.update({
+    "C01": dict(
+        built=True, bounded=True, level="exploration", tierP=False, min_obligations=0, design="§6 C01",
+        claim=("BOUNDED: view(write(parse T)) = view(T) under the documented normalisations, no INVALID marker, and write∘parse is a fixed point, for every closed subset of <=2 (quick) / <=3 (thorough) "
+               "catalogue lines of each version in both orders over string/list/LF-file/CRLF-file/trailing-newline entry points, vlevel 0-3, explicit/auto version, and for every tag datatype x value pool. "
+               "The field-level mechanisms (decoders accept exactly the grammar) are proved under C04; the document-level statement itself is not within PyVC's reach (orchestration over the object graph)."),
+        note="Bounded exploration against the independent tokenizer/view oracle; JSON canonicalisation and float spelling compared through Python's json/float." + B_NOTE,
+        technique="bounded contract check of Gfa.__init__/__str__ against an independent text oracle (stand-in; the deductive part of this property is the field-level obligations reported under C04/C20)",
+        assumptions=["documents drawn from the catalogue of bounded/universe.py", "json/float canonical forms taken from CPython"]),
+    "C02": dict(
+        built=True, bounded=True, level="exploration", tierP=False, min_obligations=0, design="§6 C02",
+        claim=("BOUNDED: the invariant WF (ownership, lookup under the current identifier, forward closure, reference/back-reference symmetry with multiplicity, removed lines unowned) "
+               "holds after construction in both arrival orders and at the end of every history of <=2 (quick) / <=3 (thorough) legal steps (rm, disconnect, rename, add) on the shared universe."),
+        note="WF is evaluated on the real object graph (_records, _data, _refs) by bounded/state.py." + B_NOTE,
+        technique="bounded invariant monitor (class invariant as pre/post of every public mutator) over enumerated histories",
+        assumptions=["histories drawn from bounded/histories.py", "symmetry for group lines (P/O/U) is checked as >=1 back-reference per referenced line"]),
+    "C04": dict(
+        built=True, bounded=True, level="other", min_obligations=100, design="§6 C04",
+        claim=("PROVED (all strings, unbounded): for the datatype modules within PyVC's reach (see functions_under_contract) the accept language of validate_encoded and of decode equals the oracle grammar "
+               "on document fields, modulo the listed ~ cells. BOUNDED: the remaining datatypes (J, B, alignments, lists), validate_decoded∘decode, and the line/record level "
+               "(field counts, tags, predefined tag types, cross-field rules) by exhaustive short strings and single-point mutations against specs/grammar.py."),
+        note="Fields are quantified over [^\\t\\n]* (the readers split on TAB/NEWLINE). The regular part is exact; JSON well-formedness, numeric ranges of B arrays and record-level rules are bounded only." + B_NOTE,
+        technique=TECH_PB,
+        assumptions=["document fields contain no TAB/NEWLINE", "oracle grammar specs/grammar.py incl. its ~ cells"]),
+    "C05": dict(
+        built=True, bounded=True, level="exploration", tierP=False, min_obligations=0, design="§6 C05",
+        claim=("BOUNDED: after every history of the C02 space (plus tag set/delete) the canonical content of the Gfa equals that of the independent text model "
+               "(documented removal cascade, dropped mentions, rename by substitution), and re-parsing the written text gives the same content."),
+        note="Oracle: bounded/oracle.py TextModel written from doc/tutorial/references.rst and the property text." + B_NOTE,
+        technique="bounded contract check of the mutators against an independent text model",
+        assumptions=["histories drawn from bounded/histories.py"]),
+    "C07": dict(
+        built=True, bounded=True, level="other", min_obligations=100, design="§6 C07",
+        claim=("PROVED (all strings): for the datatype modules within reach, every exception class that can escape decode/validate_encoded/unsafe_decode is a subclass of gfapy.Error "
+               "(implicit IndexError/ValueError/AttributeError paths are generated, not ignored). BOUNDED: lines, documents and API strings (short strings exhaustively, single-point mutations, levels 0-3)."),
+        note="Termination and recursion depth are not decided (partial correctness); RecursionError on pathological nesting is a known limit of the technique." + B_NOTE,
+        technique=TECH_PB,
+        assumptions=["arguments are str (the property quantifies over strings)", "termination not proved"]),
+})
+
 NOT_BUILT_REASON = "check not built yet at this commit (work in progress; see DESIGN.md §7 priorities)"
 ALL = ["C%02d" % i for i in range(1, 21)]
